@@ -292,7 +292,9 @@ func (g *genCase) build() Case {
 		pos, _ := refPositions(src, offs)
 		expected = g.tree.sexp(pos).String()
 	}
-	return mkCase(g.mode, []byte(src), expected, g.stream)
+	c := mkCase(g.mode, []byte(src), expected, g.stream)
+	c.Reject = g.reject
+	return c
 }
 
 func (g *genCase) shrinks() []*genCase {
@@ -683,6 +685,47 @@ func main() {
 		at := r.Intn(len(e.lex) + 1)
 		lex := append(append(append([]Lex{}, e.lex[:at]...), Lex{'?', j, j}), e.lex[at:]...)
 		b.add(&genCase{mode: "doc", lex: lex, seed: r.Uint64(), class: r.Intn(layClasses), stream: "junk-doc"})
+	}
+	// (G2) character-level glue: a character that cannot start or continue a token there, written
+	// directly before a name or a number of a printed document / value (no token-level mutation
+	// produces `-x`, `+1`, `.a`, `--1`): outside the grammar by construction, whatever the scanner
+	// makes of it
+	nGlue := run.Scale(2500, 40000)
+	for i := 0; i < nGlue; i++ {
+		r := run.Rand.Fork()
+		g := &gen{c: randChooser{r}, budget: r.Range(1, 20), p: pickProfile(r)}
+		e := &emitter{spell: r.Fork()}
+		mode := "doc"
+		if i%4 == 3 {
+			mode = "value"
+			e.emit(g.value(false))
+		} else {
+			e.emit(g.document())
+		}
+		var at []int
+		for k, l := range e.lex {
+			if l.K == 'n' || l.K == 'i' || l.K == 'f' {
+				at = append(at, k)
+			}
+		}
+		if len(at) == 0 {
+			continue
+		}
+		k := hx.Pick(r, at)
+		l := e.lex[k]
+		glue := hx.Pick(r, []string{"-", "+", ".", "..", "-.", "+.", "-_", "-+", "+-"})
+		if l.K != 'n' {
+			// before a number: `-1` and `1.5` (after an Int) would be numbers
+			glue = "+"
+			if l.Text[0] == '-' && r.Bool() {
+				glue = "-"
+			}
+		}
+		lex := append([]Lex{}, e.lex...)
+		lex[k] = Lex{'?', glue + l.Text, glue + l.Text}
+		run.Count("glue:" + glue + ":" + string(rune(l.K)))
+		b.add(&genCase{mode: mode, lex: lex, seed: r.Uint64(), class: r.Intn(layClasses), stream: "glue-" + mode,
+			reject: fmt.Sprintf("%q written directly before the token %s", glue, l.Text)})
 	}
 	// (F) ParseValue: random printed values and mutants
 	nVal := run.Scale(2500, 50000)
